@@ -12,7 +12,9 @@ TEXTS = {
                 "continues the ledger). The other half ('no unexecuted entry is skipped') is false of the code: C20_snapshot_ahead_skips_unexecuted is the recorded finding as a kernel-checked witness. "
                 "The model is run against the real etcdraft node (order engine: real raft storage, crash / restart at every point). 'A transaction is included in at most one delivered block' is "
                 "a property of the pool every proposed batch comes out of: proved there for every pool state (C18_generate_gap_free_no_repeat: no pointer of a batch was batched and uncommitted before) and checked "
-                "here on the real mempool by the pool engine (rule transaction-in-two-batches).",
+                "here on the real mempool by the pool engine (rule transaction-in-two-batches). 'Identical content on every replica' rests on every replica voting at most once per term, also after a crash: the raft hard state "
+                "(term, vote, commit) is part of the model and of the order engine (op hs = a Ready without entries or snapshot through the real RaftStorage.Store; restart reports what the reopened storage hands to raft): over every history the vote in the node's "
+                "storage is the last vote it stored, restarts keep the hard state (C20_vote_survives_history, C20_restart_keeps_hard_state; rule restart-forgets-term-or-vote).",
         "note": TB + " uint64 wrap-around outside end+fetch < 2^64 is not covered.",
         "technique": "Lean 4 theorem over an executable model + differential correspondence with the Go code",
     },
@@ -39,8 +41,11 @@ TEXTS["C04"] = {
             "moves only along steps of the state machine (C04_history_status_path), hence SUCCESS / FAILURE / ROLLBACK never change again (C04_history_final_stays); the counter hypothesis of both holds for every record the contract creates "
             "(C04_created_record_is_bounded). Block level (through applyTx with its fee step, transfers, contract calls, the timeout bookkeeping and the timeout step): a final record stays as it is over one block and over every history of blocks "
             "(C04_tx_final_stays, C04_block_final_stays, C04_block_history_final_stays) under the hypothesis that the record is not on the timeout list of a height whose timeout step runs (and nobody calls the unguarded "
-            "DeleteInterchain); that hypothesis is what setTimeoutList's bookkeeping has to guarantee, it is not proved, the model driver evaluates it on every generated block (evidence tag model:listedfinal=0/1) and the "
-            "monitor on the real node (protocol automaton written from the property text) plus the model correspondence decide whole block histories including timeouts.",
+            "DeleteInterchain). That hypothesis is now discharged in two steps (Proofs/ExecStepsT.lean, ExecListed.lean): (1) a final record that is on no list of a height still to come stays final AND off those lists over every block and every history of blocks, "
+            "with no assumption about the lists (C04_block_final_stays_unlisted, C04_block_history_final_stays_unlisted: contract code never puts a one-to-one id on a list — relation StepsT, with Go's in-place removal shown to be a sublist —, the bookkeeping adds an id only for a "
+            "request with a successful receipt, and a request naming a finished transaction never gets one); (2) the block in which a receipt for an open transaction of a local pair is accepted takes it off the list its record names and leaves it on none "
+            "(C04_block_finalising_unlists, from the invariant OpenInv: listed at most once and only under the recorded deadline). That OpenInv holds of every open record at every block boundary, and that no block abandons its bookkeeping, is not proved; the model driver evaluates both on "
+            "every generated block (evidence tags model:openinv, model:abort, model:listedfinal; a failing one is reported as a violation) and the monitor on the real node (protocol automaton written from the property text) plus the model correspondence decide whole block histories including timeouts.",
     "note": TB + " Extractor go/extract (go/packages + go/ast) is trusted to copy the literal table.",
     "technique": "Lean 4 table theorems (decide over the extracted FSM, lifted by lemma) + model correspondence + protocol monitor",
 }
@@ -61,6 +66,8 @@ TEXTS["C14"] = {
             "(C14_transfer_fails_iff), no balance becomes negative (C14_transfer_nonneg, C14_payGasFee_sender_nonneg), rounding loss of the admin split is within [0,n-1] (C14_fee_rounding). Block and history level (Proofs/ExecSupply.lean, ExecStepsS.lean): for EVERY block — transfers of any amount, IBTPs and contract calls "
             "failing at any stage, fee payments that succeed or fall back to the sender's whole balance with the transaction reverted, the timeout bookkeeping — and every list of distinct accounts containing the senders, the sum of the "
             "balances does not grow and no balance becomes negative (C14_block_no_value_created), hence over any chain of blocks (C14_history_no_value_created). "
+            "The other direction (Proofs/ExecFees.lean): what leaves the sender reaches the admins up to the rounding of the split — a paid fee and the whole balance of a sender that cannot pay lose at most n-1 units, also when the sender is itself one of the admins "
+            "(C14_paid_fee_reaches_admins, C14_unpayable_fee_reaches_admins), one transaction of any kind and outcome destroys at most n-1 units and a block at most (n-1) per transaction (C14_tx_loss_bound, C14_block_loss_bound). "
             "Two genuine defects found by this check (self-transfer created value; negative amount moved value backwards and below zero) were repaired by fix: commits and the model follows the repaired code. "
             "Model is run against the real executor; monitor recomputes the sum of all balances after every block.",
     "note": TB + " EVM/XVM balance effects (wasm set_balance host call) and the admin-registration grant are outside the exec op language.",
@@ -112,8 +119,10 @@ TEXTS["C19"] = {
             "item stored under the hash's pointer (C19_getTx_from_items), HasPendingRequest is the ready counter (C19_pending_flag_is_counter). No silent loss, one operation at a time, for every pool state: batch building forgets nothing "
             "(C19_generate_forgets_nothing), ProcessTransactions forgets a held hash only by supersession of its (account, nonce) (C19_process_forgets_only_superseded, C19_admission_sound), a commit only the hashes it "
             "names (C19_commit_forgets_only_committed), the age rule only parked unbatched holders (C19_evict_forgets_only_parked); the transaction cache in front of the pool posts every arrival once, in arrival order, in sets of at most the set size (C19_txcache_loses_nothing, tied to the real TxCache goroutine); and over every history of admissions, batch generations, commits and evictions from "
-            "any pool state a held hash stays held to the end unless one of these three reasons applied at some point (C19_history_no_silent_loss). Pending-nonce exactness and bounded liveness "
-            "(60 rounds of generate+commit) are decided by correspondence and a model-free monitor over GetTransaction of every hash ever given. Two defects found here were repaired by fix: commits "
+            "any pool state a held hash stays held to the end unless one of these three reasons applied at some point (C19_history_no_silent_loss). Readiness and the pending nonce (Proofs/PoolReady.lean): what processDirtyAccount calls ready for an account is the maximal "
+            "gap-free run of nonces held in its index from the pending nonce on — every nonce of the run is held, the first nonce behind it is not — and the pending nonce stored afterwards is exactly the nonce behind that run "
+            "(C19_ready_is_maximal_gap_free_run, C19_pending_nonce_is_behind_the_ready_run, C19_ready_run_of_set_index). Bounded liveness "
+            "(60 rounds of generate+commit) is decided by correspondence and a model-free monitor over GetTransaction of every hash ever given. Two defects found here were repaired by fix: commits "
             "(eviction corrupted other accounts' nonce indices; GetTransaction returned a superseding tx); known finding: pending nonce stale after foreign commits.",
     "note": TB,
     "technique": "Lean 4 theorems over the executable pool model + differential correspondence + no-loss monitor",
@@ -166,12 +175,15 @@ TEXTS["C17"] = {
 TEXTS["C08"] = {
     "text": "Proved on the model of the executor loop for every block content the op language expresses: exactly one receipt per transaction (C08_one_receipt_per_tx), in block order (C08_receipts_in_block_order), "
             "commit with the next height (C08_next_height), a rejected transaction still gets a (failed) receipt, the Go slice-bounds panic of the timeout-list removal loop is an explicit outcome turned into a failed receipt "
-            "(C08_remove_panic_is_contained); all model functions are total (Lean's termination checker). Crash-freedom of the Go code on inputs below the model's abstraction is decided by the correspondence run: the real executor "
+            "(C08_remove_panic_is_contained); all model functions are total (Lean's termination checker). Where a panic would end the process is an inventory regenerated from /repo on every run (go/extract/guards.go -> Gen/Guards.lean: every go statement of the "
+            "block-execution packages with whether its body starts with a deferred recover; every function that defers a recover and whether the guard is its first statement) with kernel-checked table theorems: every goroutine is guarded or one of fourteen reviewed ones, "
+            "the three guards the containment argument relies on (BoltVM.Run, BoltVM.HandleIBTP, verifyTxSignature) are in place and first, the contracts package starts no goroutine "
+            "(C08_goroutines_guarded_or_reviewed, C08_reviewed_goroutines_exist, C08_recover_guards_in_place, C08_contracts_start_no_goroutine). Crash-freedom of the Go code on inputs below the model's abstraction is decided by the correspondence run: the real executor "
             "gets blocks of malformed transactions of every class (every exported contract method from the regenerated table with wrong arity/types/unknown type tags/unparsable numbers, raw and truncated payloads, arbitrary "
             "TransactionData, malformed service ids, numeric extremes, malformed groups, proofs a rule rejects with an error or with plain false); a dead or panicking process, a missing receipt or a wrong height is a violation, and "
             "whatever the model covers must agree. Two crashes found this way were repaired by fix: commits (PostInterchainEvent through the promoted Stub surface; nil error dereferenced when a rule answers plain false).",
     "note": TB + " PARTIAL: totality of the Go code itself is shown only on generated inputs; goroutine-level hangs and the signature-verification goroutines are exercised but not modelled; EVM/XVM execution is outside the op language.",
-    "technique": "Lean 4 theorems on the executor-loop model (receipt count/order/height, contained panic) + differential correspondence under a malformed-input generator with crash detection",
+    "technique": "Lean 4 theorems on the executor-loop model (receipt count/order/height, contained panic) + table theorems over the regenerated goroutine / recover-guard inventory + differential correspondence under a malformed-input generator with crash detection",
 }
 
 TEXTS["C03"] = {
